@@ -1,11 +1,21 @@
 // Native replay for C18 on the REAL header: exit 1 = property violated on this input, 0 = holds, 2 = usage
 #include "souffle/utility/StringUtil.h"
+#include <cmath>
 #include <cstdio>
 #include <cstdlib>
 #include <string>
 int main(int argc, char** argv) {
     if (argc < 3) return 2;
     std::string mode = argv[1], lit = argv[2];
+    if (mode == "f") {
+        double want = std::strtod(lit.c_str(), nullptr);
+        try {
+            souffle::RamFloat got = souffle::RamFloatFromString(lit);
+            if (std::isinf(got) && !std::isinf(want)) { std::printf("finite literal %s accepted and stored as %f\n", lit.c_str(), (double)got); return 1; }
+            std::printf("stored %g\n", (double)got);
+            return 0;
+        } catch (...) { std::printf("rejected\n"); return 0; }
+    }
     if (mode == "u" || mode == "c") {
         unsigned long long want = std::strtoull(lit.c_str(), nullptr, 10);
         try {
